@@ -68,7 +68,7 @@ mod vharness {
     fn any_vis() -> V { let k: u8 = kani::any(); match k % 3 { 0 => V::Default, 1 => V::Hidden, _ => V::ForceVisible } }
     fn any_entry(maxd: usize) -> E {
         let k: u8 = kani::any();
-        match k % 3 { 0 => E::Absent, 1 => E::N(any_vis()), _ => { let d: usize = kani::any(); kani::assume(d <= maxd); E::R(d) } }
+        match k % 3 { 0 => E::Absent, 1 => E::N(any_vis()), _ => { let d: usize = kani::any(); kani::assume(1 <= d && d <= maxd); E::R(d) } }
     }
     fn field(e: E) -> Option<ObjectField<'static>> {
         match e {
@@ -132,20 +132,20 @@ mod vharness {
         assert!(o.has_visible_field(NAME) == spec_visible(n, &es), "C07:objlayers:has-visible-field-follows-the-visibility-rules");
         if spec_visible(n, &es) { assert!(spec_lookup(n, &es, 0).is_some(), "C07:objlayers:visible-implies-exists"); }
     }
-    //@harness props=C07,C01 quickfor=C07,C05 strength=bounded bound="objects of 1..3 layers, two field names, every combination of per-layer entries {absent, :, ::, :::, removed(d<=3)}; this instance: exactly 1 layer" clause="find_field(from, name) returns the first layer at or below `from` that defines the name and is not hidden by a remove marker (has_field accordingly); has_visible_field equals the :, ::, ::: visibility rule" timeout=900 replay=objlayers
+    //@harness props=C07,C01 quickfor=C07,C05 strength=bounded bound="objects of 1..3 layers, two field names, every combination of per-layer entries {absent, :, ::, :::, removed(1<=d<=3)}; this instance: exactly 1 layer" clause="find_field(from, name) returns the first layer at or below `from` that defines the name and is not hidden by a remove marker (has_field accordingly); has_visible_field equals the :, ::, ::: visibility rule" timeout=900 replay=objlayers
     #[kani::proof]
     #[kani::unwind(7)]
     fn lookup_and_visibility_contract_n1() { lookup_and_visibility_contract_at(1); }
-    //@harness props=C07,C01 quickfor=C07,C05 strength=bounded bound="objects of 1..3 layers, two field names, every combination of per-layer entries {absent, :, ::, :::, removed(d<=3)}; this instance: exactly 2 layers" clause="find_field(from, name) returns the first layer at or below `from` that defines the name and is not hidden by a remove marker (has_field accordingly); has_visible_field equals the :, ::, ::: visibility rule" timeout=900 replay=objlayers
+    //@harness props=C07,C01 quickfor=C07,C05 strength=bounded bound="objects of 1..3 layers, two field names, every combination of per-layer entries {absent, :, ::, :::, removed(1<=d<=3)}; this instance: exactly 2 layers" clause="find_field(from, name) returns the first layer at or below `from` that defines the name and is not hidden by a remove marker (has_field accordingly); has_visible_field equals the :, ::, ::: visibility rule" timeout=900 replay=objlayers
     #[kani::proof]
     #[kani::unwind(7)]
     fn lookup_and_visibility_contract_n2() { lookup_and_visibility_contract_at(2); }
-    //@harness props=C07,C01 quickfor=C07,C05 strength=bounded bound="objects of 1..3 layers, two field names, every combination of per-layer entries {absent, :, ::, :::, removed(d<=3)}; this instance: exactly 3 layers" clause="find_field(from, name) returns the first layer at or below `from` that defines the name and is not hidden by a remove marker (has_field accordingly); has_visible_field equals the :, ::, ::: visibility rule" timeout=900 replay=objlayers
+    //@harness props=C07,C01 quickfor=C07,C05 strength=bounded bound="objects of 1..3 layers, two field names, every combination of per-layer entries {absent, :, ::, :::, removed(1<=d<=3)}; this instance: exactly 3 layers" clause="find_field(from, name) returns the first layer at or below `from` that defines the name and is not hidden by a remove marker (has_field accordingly); has_visible_field equals the :, ::, ::: visibility rule" timeout=900 replay=objlayers
     #[kani::proof]
     #[kani::unwind(7)]
     fn lookup_and_visibility_contract_n3() { lookup_and_visibility_contract_at(3); }
 
-    fn any_present(maxd: usize) -> E { let k: u8 = kani::any(); if k % 2 == 0 { E::N(any_vis()) } else { let d: usize = kani::any(); kani::assume(d <= maxd); E::R(d) } }
+    fn any_present(maxd: usize) -> E { let k: u8 = kani::any(); if k % 2 == 0 { E::N(any_vis()) } else { let d: usize = kani::any(); kani::assume(1 <= d && d <= maxd); E::R(d) } }
 
     //@harness props=C07 strength=bounded expect=fail clause="canary"
     #[kani::proof]
